@@ -10,6 +10,7 @@ require (
 )
 
 require (
+	github.com/google/go-tpm v0.9.0 // indirect
 	github.com/google/logger v1.1.1 // indirect
 	go.uber.org/multierr v1.11.0 // indirect
 	golang.org/x/crypto v0.17.0 // indirect
